@@ -11,13 +11,18 @@ Oracle (independent of the model): brute-force enumeration of the lattice sites 
 numpy: every returned atom is a parent + integer cell vectors with the parent's attributes, lies inside the
 ellipsoid about a returned atom, no site twice, every site of the returned cell inside the ellipsoid is
 present (input atoms in [0,1)^3), sphere = ellipsoid with equal radii, input untouched and not shared.
+A site is the pair (parent atom, lattice translation), never a bare position: templates with several atoms on one
+position (mixed occupancy), with distinct atoms less than 1e-4 Angstrom apart and with split sites are generated
+(`share_sites`, `mixed_occupancy_cases`) and "no site twice" / completeness are judged for every parent separately.
+Lattices come from the C15 generator (incl. mirror-image settings and cells far from the Angstrom scale).
 """
 import copy
 import json
 import math
 
 from . import common
-from .c15 import (GEOM_ASSUMPTION, TOL, attrs_of, bits, build, gen_atom, gen_structure, geom_tie, matmul, my_stdbase, snapshot, unbits, vecmat)
+from .c15 import (GEOM_ASSUMPTION, TOL, attrs_of, bits, build, cell_label, gen_atom, gen_structure, geom_tie, matmul, my_stdbase, snapshot, unbits,
+                  vecmat)
 
 SURF = 1e-9
 
@@ -183,22 +188,15 @@ def oracle(spec, radii, sphere=False, S=None):
         site.append((p, tuple(r)))
         if t.lattice is not R.lattice:
             fails.append(("attrs", "returned atom %d does not refer to the returned lattice" % i))
-    # no (parent, translation) pair twice -- unconditionally
+    # "no site listed twice": a crystal site is an atom of the template displaced by whole cell vectors, i.e. the pair
+    # (parent atom, translation) -- unconditionally.  A bare position is NOT a site: a template may list several atoms on
+    # one position (mixed occupancy Cd0.5 Zn0.5, split sites a fraction of a picometre apart) and every one of them is a
+    # site of the crystal in its own right, so coinciding positions of DIFFERENT parents are not duplicates.
     if len(set(site)) != len(site):
-        fails.append(("duplicate", "a (parent, translation) pair is listed twice"))
-    # no position twice (when the input has no two lattice-equivalent atoms)
-    equiv = False
-    for i in range(len(pc)):
-        for j in range(i):
-            fr = numpy.linalg.solve(B0.T, pc[i] - pc[j])
-            if max(abs(x - round(x)) for x in fr) < 1e-7:
-                equiv = True
-    if not equiv:
-        order = numpy.lexsort(numpy.round(C, 6).T)
-        for u, v in zip(order[:-1], order[1:]):
-            if numpy.abs(C[u] - C[v]).max() < 1e-6:
-                fails.append(("duplicate", "returned atoms %d and %d are the same site" % (u, v)))
-                break
+        seen_ = set()
+        dup = next(x for x in site if x in seen_ or seen_.add(x))
+        fails.append(("duplicate", "the site parent %d + %r is listed %d times" % (dup[0], dup[1], site.count(dup))))
+    info["shared_positions"] = shared_positions(spec, B0)
     sabcv = numpy.array(sabc, dtype=float)
 
     def dmax(center):
@@ -283,6 +281,51 @@ def kept_indices(spec, k, R):
     return out, T
 
 
+def shared_positions(spec, B0, within=1.0e-3):
+    """number of pairs of template atoms closer than `within` Angstrom (same position, lattice translations not considered)"""
+    import numpy
+
+    pc = [numpy.array(vecmat(at["xyz"], B0)) for at in spec["atoms"]]
+    return sum(1 for i in range(len(pc)) for j in range(i) if float(numpy.abs(pc[i] - pc[j]).max()) < within)
+
+
+SHARE_MODES = ["same", "same", "same", "near", "near", "split", "triple"]
+
+
+def share_sites(rng, spec, mode=None):
+    """Let atoms of the template occupy ONE position, as substitutional disorder is written down (two or three species with
+    partial occupancies on the same site), or positions a fraction of 1e-4 Angstrom apart (`near`: distinct atoms that any
+    rounding of coordinates to 4 decimals merges), or a split site 3e-4 .. 2e-3 Angstrom wide.  The atoms stay different
+    atoms: element, label, occupancy and displacement parameters of each are its own.  Returns the mode used or None."""
+    ats = spec["atoms"]
+    if len(ats) < 2:
+        return None
+    mode = mode or rng.choice(SHARE_MODES)
+    group = rng.sample(range(len(ats)), 3 if (mode == "triple" and len(ats) >= 3) else 2)
+    src = ats[group[0]]
+    edges = spec["lattice"]["abcABG"][:3]
+    occ = {2: [0.5, 0.5], 3: [0.5, 0.3, 0.2]}[len(group)] if rng.random() < 0.7 else [round(rng.uniform(0.05, 0.6), 3) for _ in group]
+    src["occupancy"] = occ[0]
+    for n_, j in enumerate(group[1:], 1):
+        dst = ats[j]
+        dst["xyz"] = list(src["xyz"])
+        dst.pop("xyz_dtype", None)
+        if src.get("xyz_dtype"):
+            dst["xyz_dtype"] = src["xyz_dtype"]
+        dst["element"] = rng.choice([e for e in ("C", "O", "Ni", "Cd", "Zn", "Se", "Na", "Cl", "Ti") if e != src["element"]])
+        dst["occupancy"] = occ[n_]
+        if mode in ("near", "split") and not src.get("xyz_dtype"):
+            ax = rng.randrange(3)
+            d = (rng.uniform(1.0e-5, 9.0e-5) if mode == "near" else rng.uniform(3.0e-4, 2.0e-3)) / edges[ax]   # along a cell edge: d Angstrom
+            x = dst["xyz"][ax]
+            if 0.0 <= x + d < 1.0 or not (0.0 <= x < 1.0):
+                dst["xyz"][ax] = x + d
+            elif 0.0 <= x - d:
+                dst["xyz"][ax] = x - d
+    spec["shared"] = mode
+    return mode
+
+
 def gen_case(rng, cap):
     kind = rng.choice(["cubic", "cubic", "hex", "hex", "tric", "mono", "ortho", "rhomb"])
     for _ in range(200):
@@ -290,6 +333,10 @@ def gen_case(rng, cap):
         spec = gen_structure(rng, natoms=rng.choice([1, 1, 2, 3, 4, 5, 6]), kind=kind, in_cell=rng.random() >= 0.25)
         if rng.random() < 0.6:
             spec["lattice"]["baserot"] = [[1.0, 0.0, 0.0], [0.0, 1.0, 0.0], [0.0, 0.0, 1.0]]
+            spec["lattice"]["orient"] = "identity"
+        # a third of the templates with several atoms have a site shared by different atoms (mixed occupancy)
+        if len(spec["atoms"]) >= 2 and rng.random() < 0.35:
+            share_sites(rng, spec)
         cell = spec["lattice"]["abcABG"]
         nr = rng.choice([1, 1, 2, 3, 3])
         base = rng.uniform(0.4, 0.5 * cap) * min(cell[:3])
@@ -303,6 +350,54 @@ def gen_case(rng, cap):
         if 1 <= k <= cap and amb > 1e-7:
             return spec, radii
     return spec, radii
+
+
+def mixed_occupancy_cases(rng):
+    """textbook templates with substitutional disorder: several species on ONE position with partial occupancies (and one
+    pair of distinct atoms 5e-5 Angstrom apart).  Every listed atom is a site of the crystal; all are inside the cell, so
+    the completeness clause applies to each of them separately."""
+    ident = [[1.0, 0.0, 0.0], [0.0, 1.0, 0.0], [0.0, 0.0, 1.0]]
+
+    def mk(kind, cell, atoms, rot=ident, orient="identity"):
+        sp = {"lattice": {"kind": kind, "abcABG": cell, "baserot": rot, "history": None, "orient": orient, "size": "ordinary"},
+              "title": "mixed", "shared": "same", "atoms": []}
+        for i, (el, occ, xyz, u) in enumerate(atoms):
+            sp["atoms"].append({"element": el, "xyz": list(xyz), "label": "%s%d" % (el, i + 1), "occupancy": occ, "vid": i, "Uiso": u})
+        return sp
+
+    fcc = [[0.0, 0.0, 0.0], [0.0, 0.5, 0.5], [0.5, 0.0, 0.5], [0.5, 0.5, 0.0]]
+    zb = [("Cd", 0.5, x, 0.011) for x in fcc] + [("Zn", 0.5, x, 0.009) for x in fcc] + [("Se", 1.0, [u + 0.25 for u in x], 0.013) for x in fcc]
+    wz = [("Cd", 0.5, [1 / 3, 2 / 3, 0.0], 0.01), ("Zn", 0.5, [1 / 3, 2 / 3, 0.0], 0.008), ("Cd", 0.5, [2 / 3, 1 / 3, 0.5], 0.01),
+          ("Zn", 0.5, [2 / 3, 1 / 3, 0.5], 0.008), ("Se", 1.0, [1 / 3, 2 / 3, 0.375], 0.012), ("Se", 1.0, [2 / 3, 1 / 3, 0.875], 0.012)]
+    # interleaved listing: Zn directly after its Cd partner, and the shared site listed last
+    zb2 = [a for x in fcc for a in (("Se", 1.0, [u + 0.25 for u in x], 0.013), ("Cd", 0.7, x, 0.011), ("Zn", 0.3, x, 0.009))]
+    pv = [("Ba", 0.6, [0.0, 0.0, 0.0], 0.006), ("Sr", 0.4, [0.0, 0.0, 0.0], 0.007), ("O", 1.0, [0.5, 0.5, 0.0], 0.01), ("O", 1.0, [0.5, 0.0, 0.5], 0.01),
+          ("O", 1.0, [0.0, 0.5, 0.5], 0.01), ("Ti", 0.5, [0.5, 0.5, 0.5], 0.004), ("Zr", 0.3, [0.5, 0.5, 0.5], 0.005), ("Nb", 0.2, [0.5, 0.5, 0.5], 0.005)]
+    near = [("Ni", 0.5, [0.25, 0.25, 0.25], 0.005), ("Cu", 0.5, [0.25 + 1.25e-5, 0.25, 0.25], 0.006), ("O", 1.0, [0.75, 0.6, 0.1], 0.01)]
+    mrot = [[1.0, 0.0, 0.0], [0.0, 1.0, 0.0], [0.0, 0.0, -1.0]]     # the mirror image of the cell (z -> -z)
+    out = [
+        (mk("zincblende-mixed", [5.9, 5.9, 5.9, 90.0, 90.0, 90.0], zb), [7.0]),
+        (mk("zincblende-mixed", [5.9, 5.9, 5.9, 90.0, 90.0, 90.0], zb2), [5.0, 7.0, 4.0]),
+        (mk("wurtzite-mixed", [4.2, 4.2, 6.9, 90.0, 90.0, 120.0], wz), [6.0, 6.0, 8.0]),
+        (mk("perovskite-mixed", [4.0, 4.0, 4.0, 90.0, 90.0, 90.0], pv), [5.5]),
+        (mk("perovskite-mixed", [3.9, 3.9, 4.1, 90.0, 90.0, 90.0], pv), [1.9]),                   # block multiplier 1: the template itself is cut
+        (mk("near-pair", [4.0, 4.0, 4.0, 90.0, 90.0, 90.0], near), [4.5, 3.0]),
+        (mk("wurtzite-mixed", [4.2, 4.2, 6.9, 90.0, 90.0, 120.0], wz, mrot, "mirror"), [6.0, 6.0, 8.0]),
+    ]
+    # a generated template in which EVERY atom has a partner of another species on its position
+    for kind in ("tric", "mono"):
+        sp = gen_structure(rng, natoms=3, kind=kind, in_cell=True, orient="identity", size="ordinary")
+        twins = []
+        for at in sp["atoms"]:
+            at.pop("xyz_dtype", None)
+            tw = dict(copy.deepcopy(at), element="Zn" if at["element"] != "Zn" else "Cd", label=at["label"] + "'", occupancy=0.25)
+            twins.append(tw)
+        sp["atoms"] += twins
+        for i, at in enumerate(sp["atoms"]):
+            at["vid"] = i
+        sp["shared"] = "same"
+        out.append((sp, [0.9 * min(sp["lattice"]["abcABG"][:3])]))
+    return out
 
 
 def sparse_cases(rng, n):
@@ -472,7 +567,7 @@ def model_disagreements(spec, radii, mout, inf, stats):
 
 
 def new_stats():
-    return {"exact_cases": 0, "exact_surface_compared": 0, "surface_excluded": 0, "centre_ties": 0, "errors": {}, "mno_hist": {}, "oracle_surface": 0}
+    return {"shared_site_cases": 0, "shared_site_complete_judged": 0, "exact_cases": 0, "exact_surface_compared": 0, "surface_excluded": 0, "centre_ties": 0, "errors": {}, "mno_hist": {}, "oracle_surface": 0}
 
 
 def tie_one(spec, radii, sphere=False):
@@ -539,6 +634,7 @@ def run(ck):
         sp = {"lattice": {"kind": "textbook", "abcABG": cell, "baserot": [[1.0, 0.0, 0.0], [0.0, 1.0, 0.0], [0.0, 0.0, 1.0]]}, "title": "tb",
               "atoms": [{"element": "Ni", "xyz": x, "label": "Ni%d" % i, "occupancy": 1.0, "vid": i, "Uiso": 0.005} for i, x in enumerate(pos)]}
         cases.append((sp, radii, False))
+    cases += [(sp, radii, False) for sp, radii in mixed_occupancy_cases(rng)]
     for sp, radii in sparse_cases(rng, (14 if quick else 80) * widen):
         cases.append((sp, radii, False))
     lines = [model_line(s, r) for s, r, _ in cases]
@@ -554,8 +650,13 @@ def run(ck):
             ck.coverage["evaluations"] += 1
             replay = {"kind": "sphere" if sphere else "ellipsoid", "input": {"structure": spec, "radii": radii}}
             for key, msg in fails:
-                ck.fail("cut:" + key, "%s(%s cell, %d atoms, radii %r): %s" % ("makeSphere" if sphere else "makeEllipsoid", spec["lattice"]["kind"],
-                                                                                len(spec["atoms"]), radii, msg), dict(replay, observed=msg))
+                ck.fail("cut:" + key, "%s(%s cell, %d atoms%s, radii %r): %s" % (
+                    "makeSphere" if sphere else "makeEllipsoid", cell_label(spec["lattice"]), len(spec["atoms"]),
+                    ", %d pairs of atoms on one position" % inf["shared_positions"] if inf.get("shared_positions") else "", radii, msg),
+                    dict(replay, observed=msg))
+            if inf.get("shared_positions") and "R" in inf:
+                stats["shared_site_cases"] += 1
+                stats["shared_site_complete_judged"] += 1 if inf.get("incell") else 0
             ck.coverage["traces_validated_against_impl"] += 1
             dis, tie, smp = model_disagreements(spec, radii, mout, inf, stats)
             if tie is not None:
@@ -651,10 +752,14 @@ def run(ck):
     ck.coverage["distinct_nontrivial"] += nontrivial
     ck.coverage["samples"] = samples
     ck.coverage["rule"] = (
-        "%d seeded cases: cell kind in cubic/hex/ortho/mono/rhomb/triclinic (40%% with a random rotation of the base), 1-6 atoms in [0,1)^3 "
-        "incl. special positions, 1-3 radii (25%% integer-valued) with block multiplier 1..%d, plus spheres, the empty structure and a "
+        "%d seeded cases: cell kind in cubic/hex/ortho/mono/rhomb/triclinic (orientation and size classes of the C15 generator: 40%% not in "
+        "the standard orientation, of these a third mirror-image settings; cell edges from 1e-4 to thousands of Angstrom), 1-6 atoms in "
+        "[0,1)^3 (a quarter of the templates also outside) incl. special positions, in a third of the templates with several atoms two or "
+        "three different atoms on ONE position or within 1e-4 A (mixed occupancy) or a split site, textbook mixed-occupancy templates, 1-3 radii (25%% integer-valued) with block multiplier 1..%d, plus spheres, the empty structure and a "
         "rotated cell with block multiplier < 1; distinct_nontrivial = cases where the cut-out keeps more than one and fewer than all "
         "block atoms" % (len(cases), cap))
+    ck.notes.append("templates with several atoms on one position (within 1e-3 A; mixed occupancy, near pairs, split sites): %d cut, completeness "
+                    "judged per (parent atom, translation) in %d of them" % (stats["shared_site_cases"], stats["shared_site_complete_judged"]))
     ck.notes.append("block multipliers returned: %r; implementation errors (outside the statement): %r" % (stats["mno_hist"], stats["errors"]))
     ck.notes.append("atoms within 1e-9 of the surface excluded from the model comparison: %d; sites within 1e-9 of the surface skipped by the "
                     "completeness oracle: %d; cases with exact float arithmetic (surface atoms compared, d == 1.0): %d (%d surface atoms); centre chosen among equidistant atoms (model re-run with the implementation's choice): %d"
